@@ -454,6 +454,26 @@ impl World {
         out
     }
 
+    /// In-place tampering: an input carrying "mut" delivers only the tampered variant of the datagram it describes.
+    fn tamper(&self, inp: &Value, bytes: Vec<u8>, info: &mut Map<String, Value>) -> Vec<u8> {
+        match inp.get("mut") {
+            Some(m) => {
+                let other = m.get("other").and_then(|x| x.as_u64()).and_then(|o| self.injected.get((o as usize).wrapping_sub(1))).map(|x| x.bytes.clone());
+                match crate::mutate::mutate(&self.local_id, &bytes, other.as_deref(), m, &self.parties[1].id) {
+                    Some(t) => {
+                        info.insert("changed".into(), json!(t != bytes));
+                        t
+                    }
+                    None => {
+                        info.insert("changed".into(), json!(false));
+                        bytes
+                    }
+                }
+            }
+            None => bytes,
+        }
+    }
+
     async fn inject(&mut self, from: SocketAddr, bytes: Vec<u8>) -> usize {
         self.h.inject_datagram(from, &bytes).await;
         self.injected.push(Injected { bytes });
@@ -555,7 +575,8 @@ impl World {
                 info.insert("n".into(), json!(self.intern.name('m', &pv.nonce)));
                 info.insert("plain".into(), json!(self.intern.name('b', &plain)));
                 self.parties[pi].sessions.push(PeerSess { kid, sess, claimed: claim });
-                let idx = self.inject(from, pv.encode(&self.local_id)).await;
+                let bytes = self.tamper(inp, pv.encode(&self.local_id), &mut info);
+                let idx = self.inject(from, bytes).await;
                 info.insert("inj".into(), json!(idx));
             }
             "PeerMessage" => {
@@ -573,7 +594,8 @@ impl World {
                 info.insert("key".into(), json!(self.parties[pi].sessions[si].kid));
                 info.insert("n".into(), json!(self.intern.name('m', &pv.nonce)));
                 info.insert("plain".into(), json!(self.intern.name('b', &plain)));
-                let idx = self.inject(self.addr(util::s(inp, "from")), pv.encode(&self.local_id)).await;
+                let bytes = self.tamper(inp, pv.encode(&self.local_id), &mut info);
+                let idx = self.inject(self.addr(util::s(inp, "from")), bytes).await;
                 info.insert("inj".into(), json!(idx));
             }
             "PeerForget" => {
